@@ -155,6 +155,13 @@ func (ex *Exec) evalIdent(e *ast.Ident, st *State) Value {
 			if gv, ok := ex.frame().entry[o.Name()]; ok {
 				return gv
 			}
+			if ex.spec > 0 {
+				// a postcondition that names a local which is not in scope at this return: the clause must hold for an
+				// arbitrary value of it (conservative)
+				fv := freshValue("outofscope!"+o.Name(), o.Type())
+				st.assumeValid(fv)
+				return fv
+			}
 			unsupp("unbound variable %s at %s", o.Name(), ex.pos(e))
 		}
 		return v
@@ -309,7 +316,14 @@ func (ex *Exec) lvalue(e ast.Expr, st *State) *LValue {
 			if _, ok := ex.frame().entry[v.Name()]; ok {
 				unsupp("assignment to contract entry value %s", v.Name())
 			}
-			unsupp("unbound variable %s", v.Name())
+			if ex.spec > 0 {
+				// see evalIdent: a local that is out of scope at this return is an arbitrary value
+				fv := freshValue("outofscope!"+v.Name(), v.Type())
+				st.assumeValid(fv)
+				st.env[v] = fv
+			} else {
+				unsupp("unbound variable %s", v.Name())
+			}
 		}
 		return &LValue{kind: lvVar, obj: v, rootT: v.Type()}
 	case *ast.StarExpr:
@@ -1192,8 +1206,16 @@ func (ex *Exec) evalCall(call *ast.CallExpr, st *State) []Value {
 
 // applyNoError: //@ noerror clauses of the function under verification (third-party calls assumed not to fail).
 func (ex *Exec) applyNoError(call *ast.CallExpr, sig *types.Signature, res []Value, st *State) []Value {
-	if f0 := ex.frames[0]; len(ex.frames) == 1 && f0.fn != nil && f0.fn.Con != nil && len(f0.fn.Con.NoError) > 0 && len(res) > 0 && !st.dead {
+	if f0 := ex.frames[0]; len(ex.frames) == 1 && f0.fn != nil && f0.fn.Con != nil && (len(f0.fn.Con.NoError) > 0 || len(f0.fn.Con.NonNil) > 0) && len(res) > 0 && !st.dead {
 		text := strings.ReplaceAll(nodeText(ex.vc.fset, call.Fun), " ", "")
+		for _, nn := range f0.fn.Con.NonNil {
+			if nn == text && res[0].T != nil {
+				if _, ok := res[0].T.Underlying().(*types.Pointer); ok {
+					ex.note("ASSUMED: " + text + " returns a non-nil pointer in " + f0.fn.Short + " (nonnil clause)")
+					st.assume(mkNot(mkEq(res[0].scalar(), mkInt(sortRef, 0))))
+				}
+			}
+		}
 		for _, ne := range f0.fn.Con.NoError {
 			if ne == text && isErrorType(sig.Results().At(sig.Results().Len()-1).Type()) {
 				ex.note("ASSUMED: " + text + " returns a nil error in " + f0.fn.Short + " (noerror clause)")
